@@ -2713,7 +2713,9 @@ def distributed_shampoo(
       precond_dim = _precond_dim(compression_rank, stats.shape[0])
       # By assumption, precond_dim >= padding_start; we're cutting
       # off zeros here.
-      if generate_training_metrics and generate_fd_metrics:
+      if generate_fd_metrics:
+        # Must match the metrics structure _fd_update_root returns, the two
+        # are branches of one lax.cond.
         metrics = metrics.replace(fd=FDDiagnostics())
       return root[:, :precond_dim], metrics
 
